@@ -1562,7 +1562,12 @@ class Tensor:
                                     Fiber.swapRanksBelow,
                                     depth=depth)
         else:
-            root = copy.deepcopy(self.getRoot())
+            #
+            # Note: the elements that may be stored in an empty tensor
+            # (explicit defaults, empty fibers) are not swapped and so
+            # cannot be kept under the swapped ranks
+            #
+            root = Fiber()
 
         #
         # Create Tensor from rank_ids and root fiber
